@@ -247,7 +247,7 @@ type Adaptor interface {
 }
 
 type Mismatch struct {
-	Kind     string            `json:"kind"` // mismatch | panic
+	Kind     string            `json:"mkind"` // mismatch | panic
 	Path     []json.RawMessage `json:"path"` // labels from the initial state, last one failing
 	Edge     int               `json:"edge"`
 	WantRes  string            `json:"want_res"`
